@@ -1,5 +1,7 @@
 import Aiorpcx.C10.Queue
 import Aiorpcx.C10.Completed
+import Aiorpcx.C10.Stop
+import Aiorpcx.C10.Sem
 import Aiorpcx.C09.Props
 /-!
 # C10 — join follows its wait policy and reports the first finisher
@@ -176,5 +178,333 @@ example :
        .finish 0 .none [], .finish 1 .val [2], .finCancel 2 []]
     r.1.completed = some 1 ∧ r.1.joined = true ∧ r.1.log = [0, 1, 2] ∧
     r.2.getLast? = some [Obs.joinExit false] := by decide
+
+/-! ## Termination and exit-exactly-at-stop: the positive theorems
+
+Supporting files: `C09/Fuel.lean` (termination measure), `C09/NoConsumer.lean` (semaphore
+accounting without a competing consumer), `C10/Stop.lean` (`stops`, `LoopInv`, `stay_in_loop`). -/
+
+theorem pinv_reachable (p : Policy) (as : List Action) : PInv (runAll (init p) as).1 :=
+  pinv_runAll (init p) as (linv_init p) (pinv_init p)
+
+theorem loopinv_reachable (p : Policy) (as : List Action) : LoopInv (runAll (init p) as).1 :=
+  loopinv_runAll _ as (good_init p) (pinv_init p) (loopinv_init p)
+
+/-- **`join()` terminates** - the positive half of `join_terminates_full`: in a history in which
+no other task ever had to wait in `next_done()` (`NoParking` - the F12 situation, a caller parked
+on the group's semaphore, is what is excluded; callers served at once are fine), once every
+member has finished a joiner that was not abandoned (F11: cancelled again while awaiting the
+members it had cancelled) has left `join()`, and `joined` is set.  Derived from the
+no-stuck-state theorem `joiner_waits_only_for_unfinished_of_noParking`, which rests on
+`fuel_adequate`. -/
+theorem join_terminates_of_noParking (p : Policy) (as : List Action)
+    (hnp : NoParking (init p) as) (j : Joiner)
+    (hj : (runAll (init p) as).1.joiner = some j) (hab : j.abandoned = false)
+    (hall : ∀ m ∈ (runAll (init p) as).1.mem, m.status = .done) :
+    j.phase = .exited ∧ (runAll (init p) as).1.joined = true := by
+  have hex : j.phase = .exited := by
+    by_cases hne : j.phase = .exited
+    · exact hne
+    · rcases joiner_waits_only_for_unfinished_of_noParking p as hnp j hj hne with
+        ⟨_, _, m, hm, _, _, hs⟩ | ⟨_, snap, _, m, hm, _, hs⟩
+      · exact absurd (hall m hm) hs
+      · exact absurd (hall m hm) hs
+  exact ⟨hex, (reach_runAll _ as (reach_init p)).exitClean j hj hex hab⟩
+
+/-- ... in particular in histories containing no `Action.nextDone` at all -/
+theorem join_terminates_partial (p : Policy) (as : List Action)
+    (hnc : ∀ a ∈ as, a.isNextDone = false) (j : Joiner)
+    (hj : (runAll (init p) as).1.joiner = some j) (hab : j.abandoned = false)
+    (hall : ∀ m ∈ (runAll (init p) as).1.mem, m.status = .done) :
+    j.phase = .exited ∧ (runAll (init p) as).1.joined = true :=
+  join_terminates_of_noParking p as (noParking_of_noNextDone _ as hnc) j hj hab hall
+
+/-- the F12 witness violates exactly the side condition: its consumer has to wait -/
+example : ¬ NoParking (init .all) [.spawn 0 false [], .nextDone 0 [], .join [], .finish 0 .val []] := by
+  simp only [NoParking, Action.isNextDone]
+  decide
+
+/-- non-vacuity: a history meeting every hypothesis (no consumer, joiner cancelled once - not
+abandoned -, three members and a daemon all finished) -/
+example :
+    let as : List Action := [.spawn 0 false [⟨100, false⟩], .spawn 1 true [], .spawn 2 false [],
+      .join [], .cancelJoiner [0, 1, 2], .finCancel 0 [], .finCancel 1 [], .finCancel 2 [],
+      .finCancel 100 []]
+    let g := (runAll (init .all) as).1
+    (∀ a ∈ as, a.isNextDone = false) ∧ g.joiner.map (·.abandoned) = some false ∧
+    (∀ m ∈ g.mem, m.status = .done) ∧ g.mem.length = 4 ∧ g.joined = true := by decide
+
+/-- **The loop is left at the stop condition** (any history, also with competing consumers):
+in every reachable state in which the stop condition of the policy has been met - policy `None`:
+as soon as `join()` proper runs; otherwise: by a member the join loop has popped (any failed
+member; any member under `any`; a member with a non-None result under `object`) - the joiner is
+in the clean-up or has exited.  As this holds after every reaction, it holds in particular in
+the state after the very reaction in which the condition became true: the joiner never goes
+back to waiting for further members. -/
+theorem join_returns_at_stop (p : Policy) (as : List Action) (j : Joiner)
+    (hj : (runAll (init p) as).1.joiner = some j) (hph : j.phase ≠ .cancelrem)
+    (hs : (runAll (init p) as).1.stopMet = true) : j.phase = .fin ∨ j.phase = .exited := by
+  have hji := jinv_reachable p as
+  have hloop := loopinv_reachable p as
+  have hq : (runAll (init p) as).1.Quiescent :=
+    runAll_quiescent _ as (good_init p) (by simp [G.Quiescent, init])
+  generalize (runAll (init p) as).1 = g at *
+  cases hp : j.phase with
+  | fin => exact Or.inl rfl
+  | exited => exact Or.inr rfl
+  | cancelrem => exact absurd hp hph
+  | next =>
+    exfalso
+    simp only [G.Quiescent, hj] at hq
+    rcases hq with hb | hx | ⟨hcf, _⟩
+    · have hw := (hji.blockedNext j hj hb).2
+      have hsp := hloop.inLoop j hj (Or.inl hp)
+      simp only [G.stopMet, hsp, Bool.or_false, beq_iff_eq] at hs
+      exact hw hs
+    · rw [hp] at hx; cases hx
+    · rcases hcf with h | h <;> rw [hp] at h <;> cases h
+
+/-- **... stated on the completion log** (no competing consumer): as soon as a member whose
+outcome meets the stop condition of the policy *has finished* - it is in the completion log of
+the non-daemon members - the joiner, in the state after that same reaction, is in the clean-up
+or has exited: the finisher was popped and acted upon in the reaction in which it finished. -/
+theorem join_returns_at_stop_log (p : Policy) (as : List Action)
+    (hnc : ∀ a ∈ as, a.isNextDone = false) (j : Joiner)
+    (hj : (runAll (init p) as).1.joiner = some j) (hph : j.phase ≠ .cancelrem)
+    (hs : (runAll (init p) as).1.wait = .nowait ∨
+      ∃ t ∈ (runAll (init p) as).1.log,
+        stops (runAll (init p) as).1.wait ((runAll (init p) as).1.outcomeOf t) = true) :
+    j.phase = .fin ∨ j.phase = .exited := by
+  by_cases hp : j.phase = .next
+  · exfalso
+    have hji := jinv_reachable p as
+    have hloop := loopinv_reachable p as
+    have hn := ninv_reachable p as hnc
+    have hl := (good_reachable p as).linv
+    have hq : (runAll (init p) as).1.Quiescent :=
+      runAll_quiescent _ as (good_init p) (by simp [G.Quiescent, init])
+    generalize (runAll (init p) as).1 = g at *
+    simp only [G.Quiescent, hj] at hq
+    rcases hq with hb | hx | ⟨hcf, _⟩
+    · have hw := (hji.blockedNext j hj hb).2
+      have hsp := hloop.inLoop j hj (Or.inl hp)
+      obtain ⟨hperm, hs0, _⟩ := hn.blocked j hj hb
+      have hsem := hn.sem
+      simp only [hpNat, hj, hperm, hs0] at hsem
+      have hdq : g.doneq = [] := List.eq_nil_of_length_eq_zero (by simpa using hsem.symm)
+      have hlog : g.log = g.joinPopped := by rw [← hl.queue, hdq, hn.popped rfl]; simp
+      rcases hs with h | ⟨t, ht, hst⟩
+      · exact hw h
+      · rw [hlog] at ht
+        have : g.stopPopped = true := by
+          simp only [G.stopPopped, List.any_eq_true]
+          exact ⟨t, ht, hst⟩
+        rw [hsp] at this; cases this
+    · rw [hp] at hx; cases hx
+    · rcases hcf with h | h <;> rw [hp] at h <;> cases h
+  · cases hp' : j.phase with
+    | fin => exact Or.inl rfl
+    | exited => exact Or.inr rfl
+    | cancelrem => exact absurd hp' hph
+    | next => exact absurd hp' hp
+
+/-- non-vacuity (`object`): member 0 returned None - no stop, still in the loop; member 1
+returns a value - in that same reaction the joiner is in the clean-up -/
+example :
+    let as : List Action := [.spawn 0 false [], .spawn 1 false [], .spawn 2 false [], .join [],
+      .finish 0 .none []]
+    let g := (runAll (init .object) as).1
+    let g' := (react g (.finish 1 .val [2])).1
+    g.stopMet = false ∧ g.joiner.map (·.phase) = some .next ∧
+    g'.stopMet = true ∧ g'.joiner.map (·.phase) = some .fin ∧ g'.log = [0, 1] := by decide
+
+theorem wait_reachable (p : Policy) (as : List Action) : (runAll (init p) as).1.wait = p := by
+  have key : ∀ (as : List Action) (g : G), Good g → (runAll g as).1.wait = g.wait := by
+    intro as
+    induction as with
+    | nil => intro g _; rfl
+    | cons a as ih =>
+      intro g hg
+      simp only [runAll]
+      rw [ih _ (good_react g a hg), react_fst,
+        wait_runJoiner _ _ _ (good_apply g a hg).fixed, (pstep_apply g a).stable.wait]
+  exact key as _ (good_init p)
+
+/-- **The loop is not left early** (no competing consumer).  If, after an action of the
+environment, the joiner is in the `next_done` loop and some member is pending, then after the
+reaction it is *still in the loop* - unless the stop condition of the policy has been met: while
+the stop condition has not been met and members are pending, `join()` keeps waiting. -/
+theorem join_stays_in_loop_of_noParking (p : Policy) (as : List Action) (a : Action)
+    (hnp : NoParking (init p) (as ++ [a])) (j1 : Joiner)
+    (hj1 : ((runAll (init p) as).1.apply a).1.joiner = some j1) (hp1 : j1.phase = .next)
+    (hpend : ((runAll (init p) as).1.apply a).1.pending ≠ [])
+    (hstop : (react (runAll (init p) as).1 a).1.stopMet = false) :
+    ∃ j', (react (runAll (init p) as).1 a).1.joiner = some j' ∧ j'.phase = .next := by
+  rw [noParking_append] at hnp
+  have hg := good_reachable p as
+  have hn := ninv_reachable_noParking p as hnp.1
+  have hji := jinv_reachable p as
+  have hpi := pinv_reachable p as
+  have hpark := hnp.2
+  generalize (runAll (init p) as).1 = g at *
+  have hg1 := good_apply g a hg
+  rw [react_fst] at hstop ⊢
+  simp only [G.stopMet, Bool.or_eq_false_iff, beq_eq_false_iff_ne] at hstop
+  have hw : (g.apply a).1.wait ≠ .nowait := by
+    rw [← wait_runJoiner a.perm (g.apply a).1.fuel _ hg1.fixed]; exact hstop.1
+  have hna : a.isNextDone = false ∨ ((false : Bool) = false ∧ g.consumerWouldPark = false) := by
+    cases hn' : a.isNextDone with
+    | false => exact Or.inl rfl
+    | true => exact Or.inr ⟨rfl, hpark hn'⟩
+  exact stay_in_loop a.perm _ _ hg1.fixed hg1.tinv hg1.linv ((pstep_apply g a).pinv hpi)
+    (ninv_apply g a hna hn) (jinv_apply g a hji hg.tinv) j1 hj1 hp1 hw hpend hstop.2
+
+/-- ... in particular in histories without any `next_done()` caller -/
+theorem join_stays_in_loop (p : Policy) (as : List Action) (a : Action)
+    (hnc : ∀ b ∈ as, b.isNextDone = false) (hna : a.isNextDone = false) (j1 : Joiner)
+    (hj1 : ((runAll (init p) as).1.apply a).1.joiner = some j1) (hp1 : j1.phase = .next)
+    (hpend : ((runAll (init p) as).1.apply a).1.pending ≠ [])
+    (hstop : (react (runAll (init p) as).1 a).1.stopMet = false) :
+    ∃ j', (react (runAll (init p) as).1 a).1.joiner = some j' ∧ j'.phase = .next :=
+  join_stays_in_loop_of_noParking p as a
+    (noParking_of_noNextDone _ _ (by
+      intro b hb
+      simp only [List.mem_append, List.mem_singleton] at hb
+      rcases hb with hb | rfl
+      · exact hnc b hb
+      · exact hna)) j1 hj1 hp1 hpend hstop
+
+/-- non-vacuity (`all`): three members; 0 finishes fine: the joiner pops it and is back in the
+loop waiting for 1 and 2 -/
+example :
+    let as : List Action := [.spawn 0 false [], .spawn 1 false [], .spawn 2 false [], .join []]
+    let g := (runAll (init .all) as).1
+    (g.apply (.finish 0 .val [])).1.joiner.map (·.phase) = some .next ∧
+    (g.apply (.finish 0 .val [])).1.pending = [1, 2] ∧
+    (react g (.finish 0 .val [])).1.stopMet = false ∧
+    (react g (.finish 0 .val [])).1.joinPopped = [0] := by decide
+
+/-- The naive state-level converse - "a joiner that was never cancelled is in the loop (or in
+`cancel_remaining()`) whenever the stop condition has not been met and members are pending" - is
+**false** of the model and of the code: `join()` also leaves the loop when nothing is left to
+wait for, and members can appear afterwards (spawned by a member while it is being cancelled, or
+added from outside while the clean-up waits); they are then cancelled by the clean-up, not
+waited for.  `join_stays_in_loop` is the correct form. -/
+def join_in_loop_full : Prop :=
+  ∀ (p : Policy) (as : List Action) (j : Joiner), (∀ a ∈ as, a.isNextDone = false) →
+    (runAll (init p) as).1.joiner = some j → j.exc = false →
+    (runAll (init p) as).1.stopMet = false → (runAll (init p) as).1.pending ≠ [] →
+    j.phase = .next ∨ j.phase = .cancelrem
+
+/-- witness: a group with only a daemon that spawns a member when cancelled.  `join()` finds
+nothing to wait for, cancels the daemon, which spawns member 100: pending, no stop condition,
+and the joiner is in the clean-up awaiting the daemon. -/
+theorem join_in_loop_full_fails : ¬ join_in_loop_full := by
+  intro h
+  have := h .all [.spawn 0 true [⟨100, false⟩], .join [0]]
+    { phase := .fin, snapshot := some [0], exc := false, blocked := false, hasPermit := false,
+      abandoned := false } (by decide) (by decide) rfl (by decide) (by decide)
+  rcases this with h | h <;> cases h
+
+/-! ## Semaphore accounting in all histories -/
+
+theorem sinv_reachable (p : Policy) (as : List Action) : SInv (runAll (init p) as).1 :=
+  sinv_runAll _ as (good_init p) (sinv_init p)
+
+/-- **`sem_invariant`** (every history, any number of competing `next_done()` callers): permits
+banked in the group's semaphore + the permit held by the joiner = length of the done queue. -/
+theorem sem_invariant (p : Policy) (as : List Action) :
+    (runAll (init p) as).1.sem + hpNat (runAll (init p) as).1 =
+      (runAll (init p) as).1.doneq.length :=
+  (sinv_reachable p as).sem
+
+/-- hence a joiner that holds a permit always finds a task to pop: the join loop never takes
+the "`next_done()` returned None after acquiring" exit -/
+theorem permit_finds_task (p : Policy) (as : List Action) (j : Joiner)
+    (hj : (runAll (init p) as).1.joiner = some j) (hp : j.hasPermit = true) :
+    (runAll (init p) as).1.doneq ≠ [] := by
+  have h := sem_invariant p as
+  simp only [hpNat, hj, hp, ↓reduceIte] at h
+  intro he
+  rw [he] at h
+  simp at h
+
+/-- **`next_done()` answers None only when no task remains** (every history): the observation
+`nextDone k none` is made only by the caller's own action, on a group with nothing queued and
+nothing pending - never by a caller that had to acquire the semaphore, whether at once or after
+waiting.  (With the queue discipline this is "no member is omitted".) -/
+theorem next_done_none_only_when_nothing_left (p : Policy) (as : List Action) (a : Action) (k : Nat)
+    (hm : Obs.nextDone k none ∈ (react (runAll (init p) as).1 a).2) :
+    (∃ perm, a = .nextDone k perm) ∧ (runAll (init p) as).1.doneq = [] ∧
+      (runAll (init p) as).1.pending = [] := by
+  have hg := good_reachable p as
+  have hs := sinv_reachable p as
+  generalize (runAll (init p) as).1 = g at *
+  rw [react_snd, List.mem_append] at hm
+  rcases hm with hm | hm
+  · exact nn_apply g a hs k hm
+  · exact absurd hm (nn_runJoiner a.perm _ _ (good_apply g a hg).fixed (sinv_apply g a hs) k)
+
+/-- non-vacuity: two consumers; the first takes the only member, the second - nothing queued,
+nothing pending - is told None; sem = 0 = |doneq| -/
+example :
+    let r := runAll (init .all) [.spawn 0 false [], .finish 0 .val [], .nextDone 0 [], .nextDone 1 []]
+    r.2 = [[], [], [Obs.nextDone 0 (some 0)], [Obs.nextDone 1 none]] ∧ r.1.sem = 0 ∧
+      r.1.doneq = [] := by decide
+
+/-! ## Facts tie: the decision table of the `join()` loop and of `next_done()`, probed on the
+real class on every run (`tools/facts/c09.py`: real tasks on a real loop, public API only) -/
+
+def policyOfName : String → Option Policy
+  | "all" => some .all | "any" => some .any | "object" => some .object | "none" => some .nowait
+  | _ => none
+
+def outcomeOfName : String → Option Outcome
+  | "n" => some .none | "v" => some .val | "e" => some .exc | "c" => some .cancelled
+  | _ => none
+
+/-- the model's answer for one row: member 0 has finished with outcome `o` and is queued, member
+1 is running, `completed` was preset or not: (the loop stops, `completed` becomes member 0) -/
+def modelStopRow (p : Policy) (o : Outcome) (before : Bool) : Bool × Bool :=
+  let g : G := { wait := p, mem := [⟨0, false, .done, o, []⟩, ⟨1, false, .run, .none, []⟩],
+                 pending := [1], doneq := [0], sem := 1, log := [0],
+                 completed := if before then some 9 else none }
+  (g.stopAfter 0 [], (g.popT 0 []).completed == some 0)
+
+/-- the same scenario end to end through `react` (rows in which `completed` was not preset):
+(member 1 was cancelled by the group, `completed` is member 0) -/
+def modelStopHistory (p : Policy) (o : Outcome) : Bool × Bool :=
+  let fin : List Action := match o with
+    | .cancelled => [.extCancel 0 [], .finCancel 0 []]
+    | o => [.finish 0 o []]
+  let g := (runAll (init p) ([.spawn 0 false [], .spawn 1 false []] ++ fin ++ [.join [1]])).1
+  (g.statusOf 1 == some .canc, g.completed == some 0)
+
+/-- **tie**: every row of the probed table (3 looping policies × 4 outcomes × `completed` preset
+or not - all 24 present) is what `G.stopAfter` / `G.popT` say, and - where `completed` was not
+preset - what the whole reactive model does on that history.  A change of the stop test or of
+the `completed` rule in `join()` changes a row and breaks this obligation. -/
+theorem facts_stop_table :
+    Facts.C09.stopTable.map (fun r => (r.1, r.2.1, r.2.2.1)) =
+      (["all", "any", "object"].flatMap fun p => ["n", "v", "e", "c"].flatMap fun o =>
+        [false, true].map fun b => (p, o, b)) ∧
+    Facts.C09.stopTable.all (fun r =>
+      match policyOfName r.1, outcomeOfName r.2.1 with
+      | some p, some o =>
+        modelStopRow p o r.2.2.1 == (r.2.2.2.1, r.2.2.2.2) &&
+          (r.2.2.1 || modelStopHistory p o == (r.2.2.2.1, r.2.2.2.2))
+      | _, _ => false) = true := by
+  decide
+
+/-- **tie**: `next_done()` on an idle group - nothing there: None at once; a finished member:
+that member; only a pending member: the caller has to wait - as `G.apply (.nextDone ..)` -/
+theorem facts_next_done_table :
+    Facts.C09.nextDoneTable = [("empty", "none"), ("one-done", "head"), ("one-pending", "blocks")] ∧
+    ((init .all).apply (.nextDone 0 [])).2 = [Obs.nextDone 0 none] ∧
+    ((runAll (init .all) [.spawn 0 false [], .finish 0 .val []]).1.apply (.nextDone 0 [])).2 =
+      [Obs.nextDone 0 (some 0)] ∧
+    ((runAll (init .all) [.spawn 0 false []]).1.apply (.nextDone 0 [])).2 =
+      [Obs.nextDoneBlocked 0] := by
+  decide
 
 end Aiorpcx.C09
